@@ -48,8 +48,9 @@ def run(ctx):
     jobs = [(i, c, zap) for i, c in enumerate(cases) for zap in (True, False)]
     if ctx.quick() and not ctx.replay:
         rng = random.Random(ctx.seed)
-        jobs = [j for j in jobs if j[2]] [:] if False else jobs
-        jobs = rng.sample(jobs, min(len(jobs), 36))
+        # every schema with zap on (a sample left a shape out about one run in ten), a sample of the --no-zap builds
+        nozap = [j for j in jobs if not j[2]]
+        jobs = [j for j in jobs if j[2]] + rng.sample(nozap, min(len(nozap), 8))
     thriftrw = vlib.build_repo_bin(ctx, ".", "thriftrw", tags="")
     with concurrent.futures.ThreadPoolExecutor(max_workers=8) as ex:
         for r in ex.map(one, jobs):
@@ -69,5 +70,5 @@ def run(ctx):
                         "'%#v' formatting bypasses String() and is outside the property"]
     return vlib.finish(ctx, "cases = 10 secret shapes (string, binary, i32, typedef, list, map, set, struct, list of structs, map of "
                        "binaries) x required/optional x struct/exception, each with a holder reaching the annotated struct 7 ways and "
-                       "annotated fields of its own, every leaf a unique marker; generated with zap and with --no-zap (sampled in quick "
+                       "annotated fields of its own, every leaf a unique marker; generated with zap (always all) and with --no-zap (sampled in quick "
                        "tier); non-trivial = distinct (schema, option set)", exhaustive=False)
